@@ -471,6 +471,66 @@ impl Path {
     }
 }
 
+#[cfg(loom_verif)]
+impl Path {
+    /// Copy the decision path out for the verification observer.
+    pub(crate) fn verif_snapshot(&self) -> (Vec<crate::rt::verif::Branch>, usize) {
+        use crate::rt::verif::{Branch, BranchKind};
+
+        let mut out = Vec::with_capacity(self.branches.len());
+
+        for i in 0..self.branches.len() {
+            let r = object::Ref::from_usize(i);
+            let mut b = Branch {
+                kind: BranchKind::Schedule,
+                chosen: u8::MAX,
+                len: 0,
+                values: [0; MAX_ATOMIC_HISTORY],
+                exploring: false,
+                threads: [0; MAX_THREADS],
+                initial_active: None,
+                preemptions: 0,
+            };
+
+            if let Some(s) = r.downcast::<Schedule>(&self.branches) {
+                let s = s.get(&self.branches);
+                b.exploring = s.exploring;
+                b.initial_active = s.initial_active;
+                b.preemptions = s.preemptions;
+                for (j, th) in s.threads.iter().enumerate() {
+                    b.threads[j] = match th {
+                        Thread::Disabled => 0,
+                        Thread::Skip => 1,
+                        Thread::Yield => 2,
+                        Thread::Pending => 3,
+                        Thread::Active => 4,
+                        Thread::Visited => 5,
+                    };
+                }
+                if let Some(a) = s.active_thread_index() {
+                    b.chosen = a;
+                }
+            } else if let Some(l) = r.downcast::<Load>(&self.branches) {
+                let l = l.get(&self.branches);
+                b.kind = BranchKind::Load;
+                b.exploring = l.exploring;
+                b.chosen = l.pos;
+                b.len = l.len;
+                b.values = l.values;
+            } else if let Some(s) = r.downcast::<Spurious>(&self.branches) {
+                let s = s.get(&self.branches);
+                b.kind = BranchKind::Spurious;
+                b.exploring = s.exploring;
+                b.chosen = s.spur as u8;
+            }
+
+            out.push(b);
+        }
+
+        (out, self.pos)
+    }
+}
+
 impl Schedule {
     /// Returns the index of the currently active thread
     fn active_thread_index(&self) -> Option<u8> {
